@@ -7,10 +7,11 @@ from ..common import dec_val, run_go, canon, as_multiset
 MODULE = "Genql.Properties.C07"
 LEAN_TARGETS = [MODULE]
 THEOREMS = ["Genql.C07." + t for t in [
-    "cte_substitution", "cte_chain", "derived_substitution", "subquery_standalone", "exists_iff"]]
+    "cte_substitution", "cte_chain", "union_cte_substitution", "cte_read_is_table_read", "derived_substitution",
+    "subquery_standalone", "exists_iff"]]
 TRUSTED = ["sqlparser", "laziness of CTE thunks is unobservable for pure CTE bodies (the model evaluates them in order)"]
 RULE = ("documents with a base table (numeric/string columns, a nested array per row) x two- and three-stage pipelines: CTE chains "
-        "of 1-3 with multiple references and `cte.column` paths, derived tables, select-list subqueries (row-scoped and "
+        "of 1-3 with multiple references and `cte.column` paths, derived tables, joins whose sides are derived tables / CTE references, select-list subqueries (row-scoped and "
         "`<-`-rooted), IN (subquery), EXISTS with outer-column references; checked (1) model vs implementation and (2) "
         "metamorphically: composed query vs outer query over the materialised inner result given as plain input; non-trivial = "
         "inner result non-empty and outer result differs from the inner one")
@@ -188,6 +189,33 @@ def gen_derived_case(rnd):
     return c
 
 
+def gen_derived_join_case(rnd):
+    """a join whose sides are nested statements (derived tables, one of them possibly a CTE reference): equals the join of the
+    two materialised results"""
+    doc = gen_doc(rnd)
+    def side(keep):
+        wh = rnd.choice([TRUE, ["cmp", rnd.choice(["gt", "le", "ne"]), col("n0"), num(rnd.choice([1, 2, 3]))]])
+        return select([item(col("n0")), item(col(keep))], table("t"), wh=wh)
+    i1, i2 = side("s0"), side("n1")
+    kind = rnd.choice(["JOIN", "LEFT JOIN", "RIGHT JOIN", "LEFT HASH_JOIN", "PARALLEL JOIN"])
+    on = rnd.choice([["cmp", "eq", col("x", "n0"), col("y", "n0")], ["cmp", "lt", col("x", "n0"), col("y", "n0")],
+                     ["and", ["cmp", "eq", col("x", "n0"), col("y", "n0")], ["cmp", "ne", col("x", "s0"), ["str", "b"]]]])
+    jt = join_type(kind)
+    ctes = []
+    if rnd.random() < 0.3:
+        ctes = [["cq", i2]]
+        right = table("cq", "y")
+    else:
+        right = ["derived", i2, "y"]
+    outer = select([["star"]], ["join", jt, ["derived", i1, "x"], right, on], ctes=ctes)
+    plain = select([["star"]], ["join", jt, table("dm1", "x"), table("dm2", "y"), on])
+    c = mk_case(doc, outer, mode="multiset", tag="derived-join")
+    c["staged"] = [("dm1", i1), ("dm2", i2)]
+    c["outer_plain"] = plain
+    c["multiset"] = True
+    return c
+
+
 def gen_subq_case(rnd):
     doc = gen_doc(rnd)
     k = rnd.random()
@@ -313,7 +341,7 @@ def explore(chk, rnd, tier):
         for _ in range(m):
             k = rnd.random()
             cases.append(gen_cte_case(rnd) if k < 0.27 else gen_cte_multi_case(rnd) if k < 0.40 else gen_cte_path_case(rnd) if k < 0.47 else
-                         gen_derived_case(rnd) if k < 0.65 else gen_subq_case(rnd))
+                         gen_derived_case(rnd) if k < 0.60 else gen_derived_join_case(rnd) if k < 0.67 else gen_subq_case(rnd))
         res = run_cases(chk, cases, nontrivial=nontrivial)
         metamorphic(chk, cases, res)
         done += m
